@@ -8,6 +8,7 @@ CLAIMED = {
  # id: (level category, level text, level note, technique, design_ref)
  'C01': ('exploration', 'Seeded histories (apply / stub / cancel / reset / call in six call forms) over an enumerated signature zoo (59 functions covering the register- and stack-passed ABI classes) run under the deterministic scheduler with GC (clobberfree + heap churn), stack-growth and builder-dropped events fired at goom hook points; every call is compared with a recorder (exact argument words, identity for reference kinds) and a reference model. Sampling, not proof: the signature axis is enumerated, history x event timing is searched.', 'Trusted: the generated zoo and thunks, reflect-based value generator/comparator, the hook placement (events can only fire at hooks and between operations).', 'deterministic simulation: seeded history + GC/stack-growth event injection, reference-model oracle', 'DESIGN.md §7 C01'),
  'C02': ('exploration', 'Same world with the text-image oracle (full .text diff against a pristine snapshot, entry must hold a complete jump to a live function value) and the /proc/self/maps page oracle after EVERY step, 1-3 builders with clean hand-offs, double resets, re-mock after reset, final image == pristine.', 'Trusted: ELF symbol table of the child binary for region extents; histories where the statement is silent (two live builders on one target) are not generated.', 'deterministic simulation: seeded operation histories with image/page invariants after every step', 'DESIGN.md §7 C02'),
+ 'C03': ('exploration', 'Relocated code is EXECUTED, not decoded. (1) Go zoo functions mocked with an origin-calling callback are called on fresh goroutines below a filler recursion of seeded depth (1..500 frames x 4 fine offsets; every 40th seed sweeps all depths for one target) so that the stack check copied into the trampoline meets every headroom, with GC events between apply and call; result and side-effect digest must equal the un-mocked function, the callback must run exactly once. (2) An 11-shape hand-written assembly zoo whose first instructions are the cases the relocation arithmetic distinguishes (rel8 JE/JBE/JG/JMP beyond the copied prefix, rel8 opcodes without a long form, a loop branching back into the first 13 bytes, RIP-relative MOV/LEA/CMP/store-immediate with and without trailing immediates, CALL in the prefix) patched through patch.PtrTrampoline with placeholders linked before and after the targets, executed for 5 inputs so that both sides of every relocated branch run; a refusal must leave function and placeholder byte-identical.', 'Limit of the claim: prologue coverage is what the two zoos contain; the full-binary static sweep with an independent decoder named in the property text is translation validation, not simulation, and is not built (x/arch is not in the module cache). Open known finding S1 is tolerated by a narrow predicate.', 'deterministic simulation: stack-headroom sweep and GC events around origin calls, crafted-prologue zoo executed through the trampoline', 'DESIGN.md §7 C03'),
  'C04': ('exploration', 'Stub configuration histories (default first, then When / In clauses built from plain values, Any and In expressions; calls interleaved with configuration) on zoo targets including variadics with 0-2 leading fixed parameters, compared call by call (real calls in three call forms and When.Eval) with a reference interpreter of the documented rule: ordered clauses, first match, default, else a "no suitable condition" panic. Unique result ids make every answer attributable to one (clause, position).', 'Trusted: small matchable value domains (ints, strings, bools, all-int structs, ints inside interface{}); cross-kind equality belongs to C18; nested arg.In inside In(...) alternatives and Eval on variadic targets are not generated (not documented forms).', 'deterministic simulation: seeded configuration/call histories vs executable reference interpreter', 'DESIGN.md §7 C04+C05'),
  'C05': ('exploration', 'Same world with result sequences of length 1-6 on the default and on clauses (Return+AndReturn and Returns forms); sequential part compared position by position with the reference; concurrent part = 2-4 caller tasks under the seeded scheduler with preemption between the cursor load and add (hook matcher.result.loaded), recorded invoke/return event numbers checked with porcupine against the relaxed sequence model (positions in range, never backwards) plus the pairwise criterion, and the same plans under the race-detector build whose only cross-task happens-before edges are goom\'s own.', 'Trusted: porcupine v1.3.0; histories are capped at 64 operations per clause; Unknown (timeout) is never reported.', 'deterministic simulation: seeded interleavings of concurrent callers, porcupine linearizability check of the recorded history, race detector on serialised execution', 'DESIGN.md §7 C04+C05'),
  'C07': ('exploration', 'Histories of interface-variable mocks over an interface zoo (1-6 methods, unsorted declaration order, unexported and embedded methods, three variables per type some pre-loaded): Apply and As().Return per method in any subset/order, every method called through the variable (mocked slot -> its own replacement with exact arguments, un-mocked slot -> "method not implements" panic), other variables untouched, variable non-nil, builder dropped, Reset restores the two interface words; GC events (clobberfree + churn) fire at every yield including between two method mocks.', 'Trusted: one builder per variable and history; a second bare Return on the same method in one stub epoch is not generated.', 'deterministic simulation: seeded histories with GC-event injection at hook points, reference model + crash oracle', 'DESIGN.md §7 C07'),
